@@ -422,3 +422,26 @@ Fixpoint parse_pairs (ps : list text) (acc : list (text * list (option text)))
   end.
 Definition parse_qs (qs : text) : option (list (text * list (option text))) :=
   parse_pairs (split_on (fun c => (c =? 38) || (c =? 59)) qs []) [].
+
+(* ------------------------------------------------------------------ the response *)
+(** spyne/server/wsgi.py:_gen_http_headers: a list value becomes one header line per element *)
+Definition gen_http_headers (h : list (text * fval)) : list (text * text) :=
+  flat_map (fun kf => match snd kf with
+                      | FOne s => [(fst kf, s)]
+                      | FMany l => map (fun v => (fst kf, v)) l
+                      | FEmpty => [(fst kf, EMPTY)]
+                      end) h.
+(** dict.update *)
+Definition dict_update {V} (d u : list (text * V)) : list (text * V) :=
+  fold_left (fun acc kv => aset acc (fst kv) (snd kv)) u d.
+Definition CONTENT_LENGTH : text := [67; 111; 110; 116; 101; 110; 116; 45; 76; 101; 110; 103; 116; 104].
+(** WsgiApplication.handle_rpc after get_out_string with an HttpRpc out protocol
+    (wsgi.py:466-505): resp_headers.update(out_header_doc) where out_header_doc is
+    object_to_simple_dict(header class, ctx.out_header) (http.py:357-369);
+    Content-Length = str(sum(len(chunk))); start_response(code, _gen_http_headers(resp_headers));
+    the body is the concatenation of the chunks of to_bytes_iterable(return value) *)
+Definition http_response (base : list (text * fval)) (hfs : list (text * ty)) (hinst : list (text * val))
+           (chunks : list text) : list (text * text) * text :=
+  let body := concat chunks in
+  let h := dict_update base (flatten [46] hfs hinst) in
+  (gen_http_headers (aset h CONTENT_LENGTH (FOne (str_idx (len body)))), body).
